@@ -1,7 +1,6 @@
 package driver
 
 import (
-	"strings"
 	"context"
 	"fmt"
 	"net/http"
@@ -9,6 +8,7 @@ import (
 	"reflect"
 	"runtime"
 	"runtime/debug"
+	"strings"
 	"sync"
 	"time"
 )
@@ -137,7 +137,7 @@ func RunConcurrent(reg Registry, rec *Recorder, g Group) {
 		}
 		return []reflect.Value{reflect.ValueOf(resp), errV}
 	})
-	client := newClient.Call([]reflect.Value{reflect.ValueOf("http://example.test" + g.Base), doer})[0]
+	client := newClient.Call([]reflect.Value{reflect.ValueOf("http://example.test" + (&url.URL{Path: g.Base}).EscapedPath()), doer})[0]
 	ct := client.Type()
 	var callable []concCall
 	for _, op := range ops {
